@@ -2,7 +2,7 @@
 (* C->S for C05: recorded operations on a real tlb.HashmapE are steps of the   *)
 (* abstract dictionary (a finite map from n-bit keys to values).  Segments      *)
 (* start with Reset; see Bits_Trace for the segment / register conventions.    *)
-EXTENDS Dict, Boc, Json
+EXTENDS Dict, Boc, Json, KeyOps, ShardAccounts
 
 Trace == ndJsonDeserialize("trace.ndjson")
 N == Len(Trace)
@@ -65,6 +65,74 @@ TSubset == /\ E.k = "Subset" /\ UNCHANGED <<map, n>> /\ n = 32 /\ E.err = ""
                          /\ \A i \in 1..Len(D.items) : Len(D.items[i].v.b) = 0 /\ Len(D.items[i].v.r) = 1
                          /\ {<<BitsToStr(D.items[i].k), BitsToStr(T[D.items[i].v.r[1]].b)>> : i \in 1..Len(D.items)} = want
 
+\* ------------------------------------------------------------ observations of a dictionary that add no step of their own
+\* An observation is made on the dictionary in memory (api "HashmapE") or on a second, plain Hashmap decoded from the
+\* hashmap cell of the latest encoding (api "Hashmap").  Between a decode and the next Put the dictionary in memory is
+\* "fresh": listed in ascending key-bit order; a plain Hashmap decoded from an encoding always is.
+ObsKinds == {"Get", "Enc", "List", "Values", "Count", "Json", "Balances", "Orders"}
+RECURSIVE Fresh(_)
+Fresh(i) == i > 1 /\ (Trace[i - 1].k \in {"Dec", "Load"} \/ (Trace[i - 1].k \in ObsKinds /\ Fresh(i - 1)))
+\* the latest encoding (Enc of the dictionary in memory, or the bag given to Load) is of the current map
+RECURSIVE Encoded(_)
+Encoded(i) == i > 1 /\ (Trace[i - 1].k \in {"Enc", "Load"} \/ (Trace[i - 1].k \in (ObsKinds \cup {"Dec"}) /\ Encoded(i - 1)))
+
+\* Values: Keys() and Values() are the two columns of Items(): same length, same order; together exactly the map.
+\* A fresh / plain dictionary lists in ascending key-bit order, which fixes the order of Items() too (Dec / Load judge it),
+\* so `items` (Items() at the same moment) is recorded only for a dictionary that was updated since it was decoded.
+ZipCols(ks, vs) == [i \in 1..Len(ks) |-> <<ks[i], vs[i]>>]
+ValuesOK(cols, sorted) == /\ AsSet(cols) = map /\ Len(cols) = Cardinality(map) /\ WidthOK(cols)
+                          /\ (sorted => StrSorted(cols))
+TValues == /\ E.k = "Values" /\ UNCHANGED <<map, n>>
+           /\ Len(E.keys) = Len(E.vals)
+           /\ (E.api = "Hashmap" => Encoded(l))
+           /\ IF "items" \in DOMAIN E THEN E.items = ZipCols(E.keys, E.vals) ELSE (E.api = "Hashmap" \/ Fresh(l))
+           /\ ValuesOK(ZipCols(E.keys, E.vals), E.api = "Hashmap" \/ Fresh(l))
+\* Count: the number of entries of the encoded dictionary, counted without decoding it (BlockExtra.InMsgDescrLength /
+\* OutMsgDescrLength walk the labels of a 256-bit-keyed dictionary cell): the size of the map
+TCount == /\ E.k = "Count" /\ UNCHANGED <<map, n>> /\ n = 256 /\ Encoded(l)
+          /\ E.err = "" /\ E.count = Cardinality(map)
+\* Json: the JSON form of a dictionary is an object with one member per entry, named by the key's text form (KeyOps:
+\* decimal numeral / hex bytes / workchain:hex) and holding the value (here a 32-bit number); `pairs` are the members in
+\* document order.  Their order is not part of the statement.
+ValTextOK(t) == IsDecText(t, FALSE) /\ UFits(t, 32)
+JsonDenotes(kind, pairs, m) ==
+  /\ Len(pairs) = Cardinality(m)
+  /\ \A i \in 1..Len(pairs) : KeyTextOK(kind, n, pairs[i][1]) /\ ValTextOK(pairs[i][2])
+  /\ {<<BitsToStr(KeyTextBits(kind, n, pairs[i][1])), BitsToStr(UBits(pairs[i][2], 32))>> : i \in 1..Len(pairs)} = m
+TJson == /\ E.k = "Json" /\ UNCHANGED <<map, n>> /\ E.err = ""
+         /\ (E.api = "Hashmap" => Encoded(l))
+         /\ JsonDenotes(E.kind, E.pairs, map)
+\* Balances: ShardState.AccountBalances() of a shard state (unsplit: one account dictionary; split: the left and the right
+\* one) whose account dictionaries are the cells recorded: every existing account is reported once with the Grams of its
+\* balance; an entry holding account_none may be left out or reported with balance 0; nothing else is reported.  The
+\* driver derives the accounts from the current map (id = key, account exists iff the value's last bit is 1, balance = the
+\* value read as a number), so the report is also judged against the abstract map.  `counts`: what the label-walking entry
+\* counter (BlockExtra.InMsgDescrLength) reports for each account dictionary cell - an augmented dictionary, whose edges
+\* carry an extra value after the label: the number of its entries.  `avals`: Values() of a plain HashmapAug decoded from
+\* the root edge of each account dictionary (balance, or "none" for account_none), in ascending key order.
+BalOutcome(T, roots) ==
+  LET Ds == [j \in 1..Len(roots) |-> Balances(T, roots[j] + 1)]
+      ok == \A j \in 1..Len(roots) : Ds[j].ok /\ \A q \in 1..Len(Ds[j].items) : Ds[j].items[q].ok
+      all == IF ok THEN UNION {{Ds[j].items[q] : q \in 1..Len(Ds[j].items)} : j \in 1..Len(roots)} ELSE {}
+  IN [ok |-> ok, n |-> IF ok THEN Cardinality({x.k : x \in all}) ELSE 0,
+      lens |-> [j \in 1..Len(roots) |-> IF Ds[j].ok THEN Len(Ds[j].items) ELSE 0 - 1],
+      cols |-> [j \in 1..Len(roots) |-> IF ~ok THEN <<>> ELSE
+                 [q \in 1..Len(Ds[j].items) |-> IF Ds[j].items[q].exists THEN BitsToDec(Ds[j].items[q].v) ELSE "none"]],
+      tot |-> IF ok THEN Cardinality(all) ELSE 0,
+      must |-> {<<BitsToStr(x.k), BitsToDec(x.v)>> : x \in {y \in all : y.exists}},
+      may  |-> {<<BitsToStr(x.k), "0">> : x \in {y \in all : ~y.exists}},
+      abs  |-> {<<BitsToStr(x.k), x.exists, IF x.exists THEN BitsToDec(x.v) ELSE "0">> : x \in all}]
+BalAccepts(o, items, extras, counts, avals, m) ==
+  /\ o.ok /\ o.n = o.tot                                                            \* no account id twice in the state
+  /\ o.abs = {<<p[1], StrToBits(p[2])[32] = 1, IF StrToBits(p[2])[32] = 1 THEN BitsToDec(StrToBits(p[2])) ELSE "0">> : p \in m}
+  /\ o.must \subseteq AsSet(items) /\ AsSet(items) \subseteq (o.must \cup o.may)
+  /\ Cardinality({items[i][1] : i \in 1..Len(items)}) = Len(items)
+  /\ extras = 0
+  /\ counts = o.lens                     \* the label-walking entry counter on each (augmented) account dictionary cell
+  /\ avals = o.cols                      \* HashmapAug.Values(): the values in ascending key order
+TBalances == /\ E.k = "Balances" /\ UNCHANGED <<map, n>> /\ n = 256 /\ E.err = ""
+             /\ BalAccepts(BalOutcome(FromJson(E.cells), E.roots), E.items, E.extras, E.counts, E.avals, map)
+
 \* Load: a dictionary written by another implementation (any label forms) decodes to the map it denotes,
 \* listed in ascending key-bit order
 TLoad == /\ E.k = "Load" /\ E.err = "" /\ n' = n
@@ -77,7 +145,8 @@ TLoad == /\ E.k = "Load" /\ E.err = "" /\ n' = n
 
 TraceInit == l \in Starts /\ seg = l /\ map = {} /\ n = 0
 TraceNext == /\ l <= N /\ (l # seg => Trace[l].k # "Reset")
-             /\ (TReset \/ TPut \/ TGet \/ TEnc \/ TList \/ TDec \/ TOrders \/ TLoad \/ TSubset)
+             /\ (TReset \/ TPut \/ TGet \/ TEnc \/ TList \/ TDec \/ TOrders \/ TLoad \/ TSubset
+                 \/ TValues \/ TCount \/ TJson \/ TBalances)
              /\ Consume
 TraceSpec == TraceInit /\ [][TraceNext]_tvars
 Report == \A i \in Starts : PrintT(<<"SEG", i, TLCGet(i)>>)
